@@ -12,7 +12,7 @@ Line-protocol driver for the constant-folding models (model file only).
   expression tokens: a val token (literal), T / F (the names True / False), R<0|1> <val> (reference to a
   Final; 1 = defined in the current module), a binary operator token followed by two expressions,
   u- u~ u+ followed by one expression.
-  res: i<int> b<0|1> s<…> y<…> float
+  res: i<int> b<0|1> s<…> y<…> quot:<a>/<b> (CPython's float a / b of these two ints) float
 -/
 open Fold
 
@@ -71,6 +71,7 @@ def showVal : Val → String
 
 def showRes : Res → String
   | .val v => showVal v
+  | .quot a b => s!"quot:{a}/{b}"
   | .float => "float"
 
 def showFold : Option Res → String
